@@ -432,3 +432,10 @@ Fixpoint expected_at (k : kind) (hist : nat -> list msg) (p : msg -> bool) (t : 
       let ee := expected_at k hist (fun m => p m && negb (mcond m f)) eb in
       match k with Req => ee ++ et | Res => et ++ ee end
   end.
+
+(* An operation racing with ONE in-flight message must be atomic with respect
+   to it (fifo.Group's per-kind RWMutex: traffic holds the read lock across
+   all the group's children, queries and resets take the write lock): the
+   observed answers are those of one of the two sequential orders. *)
+Definition c13_either_ok (c : cfg) (h1 h2 : list label) (observed : list (list failure)) : bool :=
+  c13_ok c h1 observed || c13_ok c h2 observed.
